@@ -6,6 +6,14 @@ use uuid::Uuid;
 
 pub const U64MAX: u64 = u64::MAX;
 
+/// where generated op lines go (shared with the watchdog in main)
+pub struct Sink(pub std::sync::Arc<std::sync::Mutex<Vec<String>>>);
+impl Sink {
+    pub fn push(&self, s: String) {
+        self.0.lock().unwrap().push(s);
+    }
+}
+
 fn mk_order(kind: u8, id: OrderId, price: u64, vis: u64, hid: u64, thr: u64, amt: Option<u64>, auto: bool,
             side: Side, ts: u64, tif: TimeInForce) -> Order {
     match kind {
@@ -33,10 +41,10 @@ fn mk_order(kind: u8, id: OrderId, price: u64, vis: u64, hid: u64, thr: u64, amt
 }
 
 /// E-pure (DESIGN §4.1): exhaustive small grid + 64-bit boundary values + random.
-pub fn gen_pure(seed: u64, thorough: bool, out: &mut Vec<String>) {
+pub fn gen_pure(seed: u64, thorough: bool, out: &Sink) {
     let id = OrderId::from_u64(7);
     let mut case = 0u64;
-    let mut push = |out: &mut Vec<String>, o: &Order, q: u64| {
+    let mut push = |out: &Sink, o: &Order, q: u64| {
         out.push(format!("case {case}"));
         out.push(format!("ma {} {}", show_order(o), q));
         case += 1;
@@ -142,7 +150,9 @@ pub fn random_order(r: &mut Rng, id: OrderId, price: u64, zero_ok: bool, big: bo
     let kind = r.below(7) as u8;
     let mut vis = if big && r.chance(1, 2) { r.range(1 << 40, 1 << 59) } else if r.chance(1, 10) { r.range(10, 120) } else { r.below(13) };
     if !zero_ok && vis == 0 { vis = 1 + r.below(5); }
-    let hid = if big && r.chance(1, 3) { r.range(1 << 40, 1 << 59) } else if r.chance(1, 5) { 0 } else if r.chance(1, 6) { r.range(50, 250) } else { r.below(25) };
+    // hidden quantities stay small in histories: a tranche never grows, so a drain of a huge hidden
+    // quantity behind a small display takes hidden/display loop iterations (E-pure covers big hidden)
+    let hid = if r.chance(1, 5) { 0 } else if r.chance(1, 6) { r.range(50, 250) } else { r.below(25) };
     let thr = if r.chance(1, 3) { 0 } else { r.below(8) };
     let amt = match r.below(6) { 0 | 1 => None, 2 => Some(0), 3 => Some(1), _ => Some(r.below(30)) };
     let auto = r.chance(2, 3);
@@ -155,7 +165,7 @@ pub fn random_order(r: &mut Rng, id: OrderId, price: u64, zero_ok: bool, big: bo
 /// E-seq (DESIGN §4.2): sequential histories on one level. The generator drives a private copy of
 /// the real level only to learn which ids are live (so that ids stay unique among resting orders
 /// and sums stay below 2^64, as the properties' quantifier demands).
-pub fn gen_seq(seed: u64, ncases: u64, maxlen: u64, zero_ok: bool, out: &mut Vec<String>) {
+pub fn gen_seq(seed: u64, ncases: u64, maxlen: u64, zero_ok: bool, out: &Sink) {
     let mut r0 = Rng::new(seed ^ 0x5345_5100);
     for case in 0..ncases {
         let mut r = r0.fork();
